@@ -7,14 +7,15 @@ From Dolt Require Import Base.Str Gen.C03Consts C03.Model C03.Spec.
 Import ListNotations.
 Local Open Scope N_scope.
 
-Record opobs := { oo_ok : bool; oo_end : N; oo_disk : N }.
+Record opobs := { oo_ok : bool; oo_end : N; oo_disk : N; oo_synced : N }.
 Record look := { l_found : bool; l_off : N; l_len : N; l_st : N; l_sum : N }.
 Record res := {
   r_err : N; r_root : bytes; r_off : N; r_count : N; r_looks : list look;
   r_size : N; r_unchanged : bool; r_idx : bool
 }.
 Record obs := {
-  o_ops : list opobs;        (* per op: returned without error, writer offset after, bytes on disk after *)
+  o_ops : list opobs;        (* per op: returned without error, writer offset after, bytes on disk after, and — from the
+                                strace of the real process — bytes of the journal covered by an fsync when the call returned *)
   o_journal : bytes;         (* journal file after Close *)
   o_rootsz : N;              (* rootHashRecordSize() *)
   o_recok : bool;            (* writeChunkRecord / writeRootHashRecord outputs concatenate to the journal *)
@@ -36,6 +37,7 @@ Definition case := (input * obs)%type.
 Definition apply_mut (enc_r : wrec -> bytes) (j : bytes) (m : mut) : bytes :=
   match m with
   | MTrunc k => firstn (N.to_nat k) j
+  | MCrash _ k => firstn (N.to_nat k) j
   | MZero k n => firstn (N.to_nat k) j ++ repeat 0 (N.to_nat n)
   | MTail k g recs => firstn (N.to_nat k) j ++ g ++ concat (map enc_r recs)
   | MXor p masks =>
@@ -79,7 +81,7 @@ Definition model_obs (i : input) : obs :=
   let s := run crc bufsz journal_maybe_sync_threshold (i_maxnovel i) (i_ops i) w_init in
   let j := closed_file s in
   let fn := process crc bufsz (fun _ => true) 0 j in
-  {| o_ops := map (fun t => match t with (ok, e, d) => {| oo_ok := ok; oo_end := e; oo_disk := d |} end) per;
+  {| o_ops := map (fun t => match t with (ok, e, d, sy) => {| oo_ok := ok; oo_end := e; oo_disk := d; oo_synced := sy |} end) per;
      o_journal := j;
      o_rootsz := root_rec_len;
      o_recok := true;
@@ -96,7 +98,7 @@ Definition model_obs (i : input) : obs :=
 
 (* ---- comparison ---- *)
 Definition opobs_eqb (a b : opobs) : bool :=
-  Bool.eqb (oo_ok a) (oo_ok b) && (oo_end a =? oo_end b) && (oo_disk a =? oo_disk b).
+  Bool.eqb (oo_ok a) (oo_ok b) && (oo_end a =? oo_end b) && (oo_disk a =? oo_disk b) && (oo_synced a =? oo_synced b).
 Definition look_eqb (a b : look) : bool :=
   Bool.eqb (l_found a) (l_found b) && (l_off a =? l_off b) && (l_len a =? l_len b) && (l_st a =? l_st b) && (l_sum a =? l_sum b).
 Fixpoint list_eqb {A} (f : A -> A -> bool) (a b : list A) : bool :=
@@ -134,9 +136,28 @@ Definition expected_look (crc : bytes -> N) (rs : list wrec) (h : bytes) : look 
   | _, _ => {| l_found := false; l_off := 0; l_len := 0; l_st := 0; l_sum := 0 |}
   end.
 
-Definition res_ok (crc : bytes -> N) (rs : list wrec) (known : list bytes) (image_len : N) (m : mut) (ro : bool) (r : res) : bool :=
+(* the root of the last commit acknowledged among the first n ops *)
+Definition acked_root (ops : list op) (oos : list opobs) (n : nat) : bytes :=
+  fold_left (fun acc (p : op * opobs) =>
+               match p with
+               | (OCommit _ r, oo) => if oo_ok oo then r else acc
+               | _ => acc
+               end) (firstn n (combine ops oos)) zero_hash.
+
+Definition res_ok (crc : bytes -> N) (ops : list op) (oos : list opobs) (rs : list wrec) (known : list bytes) (image_len : N) (m : mut) (ro : bool) (r : res) : bool :=
   (* read-only opens never modify the journal or create an index *)
   (if ro then r_unchanged r && negb (r_idx r) else true) &&
+  (* a power loss after op i returned, with any file prefix between the fsync'ed and the written length surviving:
+     reopening succeeds and shows the root of the last acknowledged commit (nothing is in flight between calls) *)
+  (match m with
+   | MCrash i k =>
+     match nth_error oos i with
+     | Some oo => if (oo_synced oo <=? k) && (k <=? oo_disk oo)
+                  then (r_err r =? 0) && beq_bytes (r_root r) (acked_root ops oos (S i)) else true
+     | None => true
+     end
+   | _ => true
+   end) &&
   match expected rs m with
   | ESilent rs' =>
     (r_err r =? 0) && beq_bytes (r_root r) (last_root rs') && (r_off r =? total_len rs')
@@ -156,16 +177,17 @@ Definition oracle (i : input) (o : obs) : bool :=
   let tbl := crc_table (i_poly i) in
   let crc := crc32_tbl tbl in
   let rs := ops_recs (i_ops i) (map oo_ok (o_ops o)) in
-  (* an acknowledged commit has been handed to the OS in full before the call returned *)
+  (* an acknowledged commit has been handed to the OS in full AND covered by an fsync before the call returned
+     (trace_inv: the acknowledged root record lies below [synced]) *)
   all2 (fun (p : op) (oo : opobs) =>
           match p with
-          | OCommit _ _ => if oo_ok oo then oo_disk oo =? oo_end oo else true
+          | OCommit _ _ => if oo_ok oo then (oo_disk oo =? oo_end oo) && (oo_end oo <=? oo_synced oo) else true
           | _ => true
           end) (i_ops i) (o_ops o)
   (* the journal is the concatenation of the records of the successful operations *)
   && (lenN (o_journal o) =? total_len rs)
   && all2 (fun (mr : mut * bool) (r : res) =>
-             res_ok crc rs (i_known i) (lenN (o_journal o)) (fst mr) (snd mr) r)
+             res_ok crc (i_ops i) (o_ops o) rs (i_known i) (lenN (o_journal o)) (fst mr) (snd mr) r)
           (i_muts i) (o_res o)
   (* on the large-write run every index meta ends at a root record and covers every chunk record below it
      (C03_index_stream_covers on the real files) *)
